@@ -219,4 +219,34 @@ def run(ctx):
         run.inst("C01.R5", "containment-threshold-zero", okz,
                  "contains_point compares the edge cross product with %s (must be exactly 0: the product scales with 4^-resolution, so any absolute tolerance admits every nearby cell at fine resolutions)" % [t[0] for t in tests],
                  where(fc.fn["span"]))
+    # ---- R7: the lookup rejects no admissible point.  Under the property's own domain (latitude in [-90, 90], any finite
+    # longitude, resolution 0..29) no explicitly constructed Err in lonlat_to_cell / lonlat_to_estimate is reachable
+    # (interval analysis over that domain; errors handed up from callees are the callees' business).
+    from ..ranges import Engine
+    from ..avals import S as _S, F as _F, I as _I
+    eng7 = Engine(facts)
+    dom = (_S({"latitude": _S({"0": _F(-90.0, 90.0)}), "longitude": _S({"0": _F(-1.7e308, 1.7e308)})}), _I(0, 29))
+    lty = facts.fns[L2C]["locals"][1]["ty"]
+    live_err = []
+    nerr = 0
+    if not lty.endswith("lonlat::LonLat") or facts.fns[L2C]["arg_count"] != 2:
+        run.bad("C01.R7", "no-rejection-in-domain", "lonlat_to_cell no longer takes (LonLat, resolution): %s - cannot state the domain" % lty, w)
+    else:
+        eng7.summary(L2C, dom)
+        for key7, c7 in list(eng7.ctxs.items()):
+            if len(key7) != 2 or key7[0] not in (L2C, EST):
+                continue
+            f7 = c7.ft
+            for b7 in sorted(f7.cfg.reach):
+                if f7.blocks[b7].get("cleanup"):
+                    continue
+                for st7 in f7.blocks[b7]["stmts"]:
+                    rv7 = st7.get("rv") or {}
+                    if st7["k"] == "assign" and rv7.get("k") == "aggregate" and rv7.get("agg") == "adt" and str(rv7.get("adt", "")).endswith("result::Result") and rv7.get("variant") == "Err":
+                        nerr += 1
+                        if c7.block_live(b7):
+                            live_err.append("%s:%s" % (key7[0].split("::")[-1], (st7.get("span") or {}).get("line")))
+        run.inst("C01.R7", "no-rejection-in-domain", not live_err,
+                 "%d explicit error results in lonlat_to_cell / lonlat_to_estimate, reachable for latitude in [-90,90], finite longitude, resolution 0..29: %s" % (nerr, sorted(set(live_err)) or "none"), w)
+
     run.floor("C01", "rule instances", len(run.instances), 12)
